@@ -547,15 +547,16 @@ def slot_counts(roots, objs):
     holds nothing.  Occurrences in held tuples / lists count as slots too."""
     cnt = {id(o): 0 for o in objs}
     seen = set()
+    alive = []          # visited tuples stay alive during the walk: no id is reused
 
     def rec(x):
-        if isinstance(x, (tuple, list)):
-            for y in x:
+        if isinstance(x, (tuple, list, dict)):
+            if id(x) in seen:        # a tuple shared by two holders still holds its items once
+                return
+            seen.add(id(x))
+            alive.append(x)
+            for y in (x.items() if isinstance(x, dict) else x):
                 rec(y)
-        elif isinstance(x, dict):
-            for k, v in x.items():
-                rec(k)
-                rec(v)
         elif id(x) in cnt:
             cnt[id(x)] += 1
         elif is_node(x):
@@ -564,9 +565,16 @@ def slot_counts(roots, objs):
             seen.add(id(x))
             if getattr(x, "_p_changed", 0) is None:      # ghost: state released
                 return
-            rec(x.__getstate__())
+            st = x.__getstate__()
+            if st is not None and len(st) == 1 and hasattr(x, "_firstbucket"):
+                # a tree inlines the state of its single oid-less leaf; that
+                # leaf may also be the `next` of another leaf: visit it as a node
+                rec(x._firstbucket)
+            else:
+                rec(st)
 
     rec(roots)
+    del alive[:]        # rec refers to itself: without this the visited tuples would live until the next gc
     return [cnt[id(o)] for o in objs]
 
 
@@ -594,17 +602,21 @@ def tick():
         os.write(_tick_fd, b".")
 
 
-def guarded(fn, *args):
+def guarded(fn, *args, timeout=10):
     """fn(*args) in a forked child, so that a crash of the code under test
-    (segmentation fault, abort) becomes an observation instead of killing the
-    stand-in.  -> ('ok', result) | ('crash', signal number, ticks seen)."""
+    (segmentation fault, abort) or an endless loop (SIGALRM after `timeout`
+    seconds) becomes an observation instead of killing the stand-in.
+    -> ('ok', result) | ('crash', signal number, ticks seen)."""
     import pickle
+    import signal
     global _tick_fd
     r, w = os.pipe()
     pid = os.fork()
     if pid == 0:
         os.close(r)
         _tick_fd = w
+        signal.signal(signal.SIGALRM, signal.SIG_DFL)
+        signal.alarm(timeout)
         try:
             data = pickle.dumps(("ok", fn(*args)))
         except BaseException as e:      # reported to the parent, which re-raises
